@@ -483,6 +483,13 @@ impl World {
         }
         inc.outs.push(out);
         inc.durable = inc.outs.len();
+        // a finished evaluator (no polls left) is dropped where it last ran — on
+        // another thread than the one that created it, when executors are in play
+        if !t.runnable() && !t.dead {
+            if let Some(st) = t.stepper.take() {
+                self.pool.call(exec, move || drop(st));
+            }
+        }
         true
     }
 
